@@ -289,6 +289,11 @@ pub fn run(ctx: &mut Ctx) {
             c!(format!("map-{fname}"), "A=Nd,U=Nd", map::<N, Nd, Nd>(form));
             c!(format!("fold-{fname}"), "A=Nd", fold::<N, Nd>(form));
             c!(format!("generate-{fname}"), "U=Nd", generate::<N, Nd>(form));
+            c!(format!("generate-{fname}"), "U=Zn", generate::<N, Zn>(form));
+            c!(format!("generate-{fname}"), "U=unit", generate::<N, ()>(form));
+            c!(format!("map-{fname}"), "A=Zn,U=Zn", map::<N, Zn, Zn>(form));
+            c!(format!("map-{fname}"), "A=Tr4,U=Zn", map::<N, Tr<0>, Zn>(form));
+            c!(format!("fold-{fname}"), "A=Zn", fold::<N, Zn>(form));
             c!(format!("fold-{fname}"), "A=Tr4", fold::<N, Tr<0>>(form));
             c!(format!("fold-{fname}"), "A=u32", fold::<N, u32>(form));
             c!(format!("fold-{fname}"), "A=Tr24", fold::<N, Tr<5>>(form));
@@ -301,6 +306,10 @@ pub fn run(ctx: &mut Ctx) {
         c!("clone", "A=u32", clone::<N, u32>(false));
         c!("clone", "A=TrZ", clone::<N, TrZ>(false));
         c!("clone", "A=Nd", clone::<N, Nd>(false));
+        c!("clone", "A=Zn", clone::<N, Zn>(false));
+        c!("clone-box", "A=Zn", clone::<N, Zn>(true));
+        c!("default", "U=Zn", default_like::<N, Zn>(false));
+        c!("default_boxed", "U=Zn", default_like::<N, Zn>(true));
         c!("clone-box", "A=Nd", clone::<N, Nd>(true));
         c!("default", "U=Nd", default_like::<N, Nd>(false));
         c!("default_boxed", "U=Nd", default_like::<N, Nd>(true));
@@ -316,6 +325,7 @@ pub fn run(ctx: &mut Ctx) {
                 c!($label, "A=Tr24,B=Tr8,U=u32", zip_wrapped(|| $fname::<N, Tr<5>, Tr<1>, u32>()));
                 c!($label, "A=TrZ,B=Tr4,U=Tr4", zip_wrapped(|| $fname::<N, TrZ, Tr<0>, Tr<0>>()));
                 c!($label, "A=Nd,B=Nd,U=Nd", zip_wrapped(|| $fname::<N, Nd, Nd, Nd>()));
+                c!($label, "A=Zn,B=u32,U=Zn", zip_wrapped(|| $fname::<N, Zn, u32, Zn>()));
                 c!($label, "A=Nd,B=Tr4,U=Nd", zip_wrapped(|| $fname::<N, Nd, Tr<0>, Nd>()));
             };
         }
